@@ -140,6 +140,8 @@ class AgentWorld(object):
             c.update(cfgd)
         self.cfg = c
         self.budget_limit = budget_limit
+        import random
+        random.seed(0)          # the agent does not use randomness today; a change that starts to must not make runs differ
         self.sim = sim.World(local_host=c['local_addr'])
         CLOCK.world = self.sim
         install_time_seam()
